@@ -121,6 +121,8 @@ pub fn subdivide_model<F: Float>(
 /// FOREST_TEMPLATE) so that all container shapes are concrete; hole ids are any valid indices
 static mut FOREST_TEMPLATE: u8 = 0;
 static mut BOX_MODE: u8 = 0;
+/// contours handed out without points (cheap: no vector clones): only the grouping is observable
+static mut FOREST_NO_POINTS: bool = false;
 pub fn connect_edges_model<F: Float>(_sorted_events: &[Rc<SweepEvent<F>>]) -> Vec<Contour<F>> {
     // (hole_of, hole ids) per contour
     let t: [(i32, [i32; 2]); 3] = match unsafe { FOREST_TEMPLATE } {
@@ -142,7 +144,9 @@ pub fn connect_edges_model<F: Float>(_sorted_events: &[Rc<SweepEvent<F>>]) -> Ve
                 let (parent, hs) = t[$i];
                 let mut c = Contour::new(if parent < 0 { None } else { Some(parent) }, 0);
                 let m = F::from(10 + $i as i32).unwrap();
-                c.points.push(Coord { x: m, y: m });
+                if !unsafe { FOREST_NO_POINTS } {
+                    c.points.push(Coord { x: m, y: m });
+                }
                 if hs[0] >= 0 {
                     c.hole_ids.push(hs[0]);
                 }
@@ -349,6 +353,43 @@ disp!(dispatch_sweep_forest3, 2, 3, 2, |op| {
     let r = a.boolean(&b, op);
     check(r, op, 1, 1, 1.0, 5.0, true);
 });
+// --- grouping only: contours without points; number of polygons = number of exterior contours, in
+// order, each with as many interior rings as its contour lists hole ids
+fn check_grouping(res: &MultiPolygon<f64>) {
+    let r = unsafe { &REC };
+    assert!(r.sd_calls == 1 && r.ce_calls == 1, "the sweep path was taken");
+    let mut k = 0;
+    let mut i = 0;
+    while i < r.nc {
+        if r.hole_of[i] < 0 {
+            assert!(k < res.0.len(), "every exterior contour becomes a polygon");
+            let nh = (r.holes[i][0] >= 0) as usize + (r.holes[i][1] >= 0) as usize;
+            assert!(res.0[k].interiors().len() == nh, "a polygon carries exactly as many holes as its contour lists");
+            k += 1;
+        }
+        i += 1;
+    }
+    assert!(k == res.0.len(), "contours that are holes do not become polygons");
+}
+macro_rules! disp_grouping {
+    ($name:ident, $forest:expr) => {
+        disp!($name, 2, $forest, 1, |op| {
+            unsafe {
+                FOREST_NO_POINTS = true;
+            }
+            let (a, b) = (marked(1.0), marked(5.0));
+            let r = a.boolean(&b, op);
+            check_grouping(&r);
+            kani::cover!(r.0.len() >= 1, "at least one polygon assembled");
+            std::mem::forget(r);
+        });
+    };
+}
+disp_grouping!(dispatch_grouping_forest0, 0);
+disp_grouping!(dispatch_grouping_forest1, 1);
+disp_grouping!(dispatch_grouping_forest2, 2);
+disp_grouping!(dispatch_grouping_forest3, 3);
+
 /// the named convenience methods are the four operations
 disp!(dispatch_named_methods, 1, 4, 255, |op| {
     let (a, b) = (marked(1.0), marked(5.0));
